@@ -60,6 +60,9 @@ fn health(c: &BTreeMap<String, u64>, _thorough: bool) -> Result<(), String> {
         "miss:expired-refetch",
         "miss:fresh-after-change",
         "miss:cd-partition",
+        "hit:bare-ds-stripped:referral",
+        "hit:bare-ds-stripped:answer",
+        "hit:bare-ds-stripped:negative",
         "hit:ext-rcode",
         "hit:ext-rcode:low-nibble-0-with-answer",
         "hit:ext-rcode:low-nibble-3",
@@ -193,6 +196,7 @@ struct Info {
     do_down: bool,
     ad_down: bool,
     stripped: bool,
+    stripped_bare_ds: bool,
     ad_cleared: bool,
     exact_expiry: bool,
     bound: Option<Bound>,
@@ -352,6 +356,10 @@ fn explain_content(
         }
     }
     info.stripped = !dropped.is_empty();
+    // the only DNSSEC-ish records of U were DS outside the answer section
+    info.stripped_bare_ds = !dropped.is_empty()
+        && dropped.iter().all(|d| d.rtype == T_DS)
+        && !um.recs.iter().any(|x| x.rtype == T_RRSIG || x.rtype == T_NSEC || x.rtype == T_NSEC3);
     info.cname = um.recs.iter().any(|x| x.sec == 1 && x.rtype == 5);
     // AD: never added; kept for a query that asked
     if rm.ad() && !um.ad() {
@@ -793,6 +801,15 @@ async fn run_async(case: &Case, eff: &Eff, trace: &mut Vec<String>, stats: &mut 
                     }
                     if info.stripped {
                         cls("hit:dnssec-stripped", stats);
+                    }
+                    if info.stripped_bare_ds {
+                        cls("hit:bare-ds-stripped", stats);
+                        match entries[info.src].parsed.as_ref().map(bound_kind) {
+                            Some(Bound::Delegation) => cls("hit:bare-ds-stripped:referral", stats),
+                            Some(Bound::Answer) => cls("hit:bare-ds-stripped:answer", stats),
+                            Some(Bound::NoData) | Some(Bound::NxDomain) => cls("hit:bare-ds-stripped:negative", stats),
+                            _ => {}
+                        }
                     }
                     if info.ad_cleared {
                         cls("hit:ad-cleared", stats);
